@@ -22,7 +22,7 @@ int main(int argc, char **argv)
       o.variant = (round / 2) % 2;
       o.cross_section = true;
       // every second pair of rounds: slabs with the mass conserving model (its helper functions and workspaces), one with a spline
-      if ((round / 2) % 2 == 1) { o.slab_model = 1 + (round / 4) % 2; o.second_slab = true; o.variant = 0; }
+      if ((round / 2) % 2 == 1) { o.slab_model = 1 + (round / 4) % 2; o.second_slab = true; o.variant = 0; o.water = true; }
       const std::string text = worlds::rich(o);
       // a brand-new world per round: the very first queries of all threads overlap (lazy initialisation races)
       auto w = kit::make_world(text, 1, "tsan");
